@@ -2,6 +2,9 @@ package harness
 
 import (
 	"fmt"
+	"strings"
+
+	"github.com/omec-project/upf-epc/zzverif/vsim"
 	"github.com/wmnsk/go-pfcp/message"
 	"google.golang.org/grpc/codes"
 	"net"
@@ -41,7 +44,128 @@ func decodeEndMarker(b []byte) (src, dst net.IP, sport, dport uint16, teid uint3
 	return ip4l.SrcIP.To4(), ip4l.DstIP.To4(), uint16(udp.SrcPort), uint16(udp.DstPort), gtp.TEID, gtp.MessageType, true
 }
 
+// scenarioC14Stall: the datapath's end of the end-marker socket stops reading for a
+// while (its queue is full: the agent's writes block, as a unix datagram sender's
+// do) while more hand-overs with end markers arrive than the agent can queue; when
+// the socket drains again every hand-over that was accepted must have produced its
+// one marker, to its own old tunnel - none may have been dropped on the way.
+func scenarioC14Stall(r *Run) {
+	r.Conf = DefaultBESSConf()
+	r.Conf.EnableEndMarker = true
+	r.Conf.EnableHBTimer = false
+	r.Conf.ReadTimeout = 100000
+	r.Sim.Strat = vsim.StratRunToBlock
+	r.Sim.MaxSteps = 60_000_000
+	p := r.AddPeer()
+	r.StartAgent()
+	if !r.AgentAlive() || p.Associate() == nil {
+		r.CheckNoPanics("C14")
+		return
+	}
+	g := NewGen(r)
+	g.PlainQER = true
+	s := g.Session(p, SessShape{})
+	// (the downlink FAR has a tunnel from the start: every hand-over has an old tunnel)
+	g.nextTEID++
+	*s.FAR(2) = FARSpec{ID: 2, Action: ActFORW, DstIface: IfAccess, HasFwd: true, HasOHC: true, TEID: g.nextTEID, PeerIP: g.gnbs[0]}
+	if !p.Establish(s).Accepted {
+		return
+	}
+	r.Accepted++
+	sink := "/tmp/pfcpport"
+	n := 1030 + r.Ch.Choose(30, "stall-handovers")
+	stallAt := r.Ch.Choose(3, "stall-at")
+	r.Skel("stalled-end-marker-socket")
+	type want struct {
+		teid uint32
+		peer net.IP
+	}
+	var wants []want
+	released := false
+	release := func() {
+		if !released {
+			released = true
+			r.W.Net.UnixStallUntil[sink] = 0
+			r.Sim.After(0, func() {})
+			r.Op("the end-marker socket drains again")
+		}
+	}
+	for k := 0; k < n && r.AgentAlive(); k++ {
+		if k == stallAt {
+			r.W.Net.StallUnix(r.W, sink, 24*time.Hour)
+			r.Fault("end-marker-socket-stalled")
+			r.Op("the end-marker socket stops draining at hand-over %d", k)
+		}
+		old := *s.FAR(2)
+		g.nextTEID++
+		f := &FARSpec{ID: 2, Action: ActFORW, DstIface: IfAccess, HasFwd: true, HasOHC: true, TEID: g.nextTEID, PeerIP: g.gnbs[k%len(g.gnbs)], EndMarker: true}
+		m := p.ModifyMsg(s.UPSEID, &ModSpec{Tag: "uF:handover", UpdateFAR: []*FARSpec{f}})
+		p.SendMsg(m)
+		// the answer comes at once while the agent can queue the marker; once its
+		// queue is full the handler waits for room: after a good second of that the
+		// socket drains again
+		var rx *RxMsg
+		got := r.Sim.RunUntil(func() bool {
+			rx = p.FindResponse(message.MsgTypeSessionModificationResponse, m.Sequence())
+			return rx != nil
+		}, r.until(1300*time.Millisecond))
+		if !got {
+			r.Probe("handler-waited-for-room-in-the-end-marker-queue")
+			release()
+			r.Sim.RunUntil(func() bool {
+				rx = p.FindResponse(message.MsgTypeSessionModificationResponse, m.Sequence())
+				return rx != nil
+			}, r.until(8*time.Second))
+		}
+		if rx == nil {
+			if r.AgentAlive() {
+				r.Violate("C14", "hand-over-unanswered:stalled-socket", "hand-over %d of %d got no answer although the end-marker socket drains again\n%s", k, n, strings.Join(r.Sim.BlockedTable(), "\n"))
+			}
+			return
+		}
+		rx.Used = true
+		if c, _ := CauseOf(rx.Msg); c == ie.CauseRequestAccepted {
+			r.Accepted++
+			if old.HasOHC {
+				wants = append(wants, want{old.TEID, old.PeerIP})
+			}
+			s.ApplyMod(&ModSpec{UpdateFAR: []*FARSpec{f}})
+		}
+	}
+	release()
+	r.Sim.RunFor(2 * time.Second)
+	r.CheckNoPanics("C14")
+	if !r.AgentAlive() {
+		return
+	}
+	pkts := r.W.Net.UnixSink[sink]
+	r.Op("%d hand-overs accepted with an old tunnel, %d end markers written (socket stalled from hand-over %d until the agent's queue was full for more than a second)", len(wants), len(pkts), stallAt)
+	gotT := map[uint32]int{}
+	for _, pk := range pkts {
+		_, dst, _, _, teid, mt, ok := decodeEndMarker(pk.Data)
+		if !ok || mt != 254 {
+			r.Violate("C14", "malformed-marker:stalled-socket", "a packet on the end-marker socket does not decode as a GTP-U End Marker")
+			return
+		}
+		_ = dst
+		gotT[teid]++
+	}
+	for _, w := range wants {
+		if gotT[w.teid] != 1 {
+			r.Violate("C14", fmt.Sprintf("marker-count:stalled-socket:want=1:got=%d", min(gotT[w.teid], 2)), "the hand-over away from TEID %d towards %v was accepted; %d end markers to that tunnel were written (%d hand-overs, %d markers in all; the end-marker socket had stalled for a while)", w.teid, w.peer, gotT[w.teid], len(wants), len(pkts))
+			return
+		}
+	}
+	if len(pkts) != len(wants) {
+		r.Violate("C14", "marker-count:stalled-socket:extra", "%d end markers written for %d accepted hand-overs", len(pkts), len(wants))
+	}
+}
+
 func scenarioC14(r *Run) {
+	if r.Ch.Choose(60, "stalled-socket-history") == 1 {
+		scenarioC14Stall(r)
+		return
+	}
 	if r.Ch.Choose(4, "datapath") == 1 {
 		scenarioC14UP4(r)
 		return
